@@ -507,7 +507,7 @@ func C01(c *core.Ctx) {
 	pp := filepath.Join(c.Work, "paths.ndjson")
 	_ = core.WriteNDJSON(pp, precs)
 	dump := filepath.Join(c.Work, "space")
-	rs, err := c.RunTLC(core.TLCOpts{Module: "MC_Totality", Env: map[string]string{"PATHS": pp, "ROT": fmt.Sprint(c.Seed % 11)}, Dump: dump, Timeout: 30 * time.Minute, Name: "space"})
+	rs, err := c.RunTLC(core.TLCOpts{Module: "MC_Totality", Env: map[string]string{"PATHS": pp, "ROT": fmt.Sprint(c.Seed % 13)}, Dump: dump, Timeout: 30 * time.Minute, Name: "space"})
 	if err != nil {
 		c.Inconclusive("MC_Totality failed: " + err.Error())
 		return
